@@ -1767,11 +1767,18 @@ async fn apply_assignment(
     // Read option before taking mutable borrow on env.
     let export_variables_on_modification = shell.options().export_variables_on_modification;
 
+    // A command-scoped (temporary) assignment only ever updates a variable of the command
+    // scope that was just pushed, never one that belongs to an enclosing command's scope.
+    let in_current_command_scope = required_scope != Some(EnvironmentScope::Command)
+        || shell.env().innermost_scope_has(variable_name.as_str());
+
     // See if we can find an existing value associated with the variable.
     if let Some((existing_value_scope, existing_value)) =
         shell.env_mut().get_mut(variable_name.as_str())
     {
-        if required_scope.is_none() || Some(existing_value_scope) == required_scope {
+        if required_scope.is_none()
+            || (Some(existing_value_scope) == required_scope && in_current_command_scope)
+        {
             if let Some(array_index) = array_index {
                 match new_value {
                     ShellValueLiteral::Scalar(s) => {
